@@ -61,6 +61,7 @@ const (
 	tLeaf  = "//pkg:leaf"
 	tOther = "//pkg:other"
 	tOtherAll = "//pkg:other_all"
+	tDocs     = "//:docs" // sources = glob of a pattern that only names inside .dawn/build could match: no sources
 	tColon = "//pkg:co:lon" // a target whose name contains a colon (legal to declare, awkward to spell as a label)
 )
 
@@ -176,6 +177,9 @@ def _top(t):
 		b.WriteString("    emit(\"out/top\", \"top:\" + slurp(\"out/mid\"))\n")
 		b.WriteString("target(name=\"top\", function=_top, deps=[\":mid\"" + extra + "])\n")
 	}
+	// a recursive glob that nothing in the project matches (only record files, which contain
+	// "%2F", could): the build-state directory is never part of the project
+	b.WriteString("def _docs(t):\n    step(\"docs\")\n    emit(\"out/docs\", \"docs:\" + str(len(t.sources)))\ntarget(name=\"docs\", function=_docs, sources=glob([\"**%2F**\"]))\n")
 	fmt.Fprintf(&b, "LATE = %d\n", 7+v.Late) // assigned after the targets that refer to it were registered
 	alw := ""
 	if v.AlwaysGen {
@@ -242,7 +246,7 @@ func (v Vars) env(t string) string {
 		return fmt.Sprintf("E%v C%v", v.Edge, v.Chatty)
 	case tLeaf:
 		return fmt.Sprintf("D%d F%d C%v S%v X%v", v.D, v.FlagV, v.Chatty, v.Sabotage, v.XSrc)
-	case tOther, tColon, tOtherAll:
+	case tOther, tColon, tOtherAll, tDocs:
 		return ""
 	}
 	panic(t)
@@ -259,7 +263,7 @@ func (v Vars) codeText(t string) string {
 	f := w.render()
 	var text string
 	switch t {
-	case tGen, tMid, tTop:
+	case tGen, tMid, tTop, tDocs:
 		text = f["BUILD.dawn"] + "\x00" + f["lib.dawn"]
 	default:
 		text = f["pkg/BUILD.dawn"]
@@ -320,7 +324,7 @@ func (v Vars) deps(t string) []string {
 }
 
 func (v Vars) targets() []string {
-	ts := []string{tGen, tMid, tTop, tLeaf}
+	ts := []string{tGen, tMid, tTop, tLeaf, tDocs}
 	if v.Other {
 		ts = append(ts, tOther)
 	}
@@ -376,6 +380,8 @@ func outputsOf(t string) []string {
 		return []string{"out/colon"}
 	case tOtherAll:
 		return []string{"out/other_all"}
+	case tDocs:
+		return []string{"out/docs"}
 	}
 	return nil
 }
